@@ -48,6 +48,22 @@ func reverseZSetMembers(mems []*ZSetMember) []*ZSetMember {
 	return mems
 }
 
+// limitZSetMembers returns count members starting at offset, as the LIMIT option selects them;
+// a negative count selects all members from offset on.
+func limitZSetMembers(mems []*ZSetMember, offset int, count int) []*ZSetMember {
+	if offset < 0 {
+		offset = 0
+	}
+	if len(mems) < offset {
+		offset = len(mems)
+	}
+	mems = mems[offset:]
+	if 0 <= count && count < len(mems) {
+		mems = mems[:count]
+	}
+	return mems
+}
+
 func NewZSetMember(score float64, data string) *ZSetMember {
 	return &ZSetMember{
 		Score:  score,
@@ -95,20 +111,12 @@ func (zset *ZSet) Range(start int, stop int, opt ZRangeOption) []*ZSetMember {
 		mems = append(mems, zset.members[n])
 	}
 
-	offset := opt.Offset
-	if offset < 0 {
-		offset = 0
-	}
-	count := opt.Count
-	if count < 0 {
-		count = len(mems)
-	}
-
+	mems = limitZSetMembers(mems, opt.Offset, opt.Count)
 	if !opt.REV {
-		return mems[offset:count]
+		return mems
 	}
 
-	return reverseZSetMembers(mems[offset:count])
+	return reverseZSetMembers(mems)
 }
 
 func (zset *ZSet) RangeByScore(min float64, max float64, opt ZRangeOption) []*ZSetMember {
@@ -123,20 +131,12 @@ func (zset *ZSet) RangeByScore(min float64, max float64, opt ZRangeOption) []*ZS
 		mems = append(mems, mem)
 	}
 
-	offset := opt.Offset
-	if offset < 0 {
-		offset = 0
-	}
-	count := opt.Count
-	if count < 0 {
-		count = len(mems)
-	}
-
+	mems = limitZSetMembers(mems, opt.Offset, opt.Count)
 	if !opt.REV {
-		return mems[offset:count]
+		return mems
 	}
 
-	return reverseZSetMembers(mems[offset:count])
+	return reverseZSetMembers(mems)
 }
 
 func (zset *ZSet) Rem(members []string) int {
